@@ -19,7 +19,7 @@ import time
 from pathlib import Path
 
 VERIF = Path(__file__).resolve().parent.parent
-REPO = Path("/repo")
+REPO = Path(os.environ.get("TWV_REPO", "/repo"))   # a scratch worktree may stand in for /repo (isolated runs)
 ALL = [f"C{n:02d}" for n in range(1, 21)]
 
 
@@ -28,12 +28,12 @@ def sh(cmd, **kw):
 
 
 def suite():
-    p = sh("cd /repo && /venv/bin/python -m pytest -q -p no:cacheprovider --timeout=900 --continue-on-collection-errors 2>&1 | tail -1")
+    p = sh(f"cd {REPO} && /venv/bin/python -m pytest -q -p no:cacheprovider --timeout=900 --continue-on-collection-errors 2>&1 | tail -1")
     return p.stdout.strip()
 
 
 def demo(path):
-    p = sh(f"cd /tmp && PYTHONPATH=/repo/src /venv/bin/python {path}", timeout=600)
+    p = sh(f"cd /tmp && PYTHONPATH={REPO}/src /venv/bin/python {path}", timeout=600)
     return p.returncode, (p.stdout + p.stderr)[-400:]
 
 
@@ -44,7 +44,7 @@ def main():
     if "--checks" in sys.argv:
         v = sys.argv[sys.argv.index("--checks") + 1]
         checks = ALL if v == "all" else v.split(",")
-    assert sh("git -C /repo status --porcelain").stdout.strip() == "", "/repo is not clean"
+    assert sh(f"git -C {REPO} status --porcelain --untracked-files=no").stdout.strip() == "", "/repo is not clean"
     out = VERIF / "seeded" / name
     out.mkdir(parents=True, exist_ok=True)
     for f in ("patch.diff", "demo.py"):
@@ -52,7 +52,7 @@ def main():
     meta = json.loads((src / "meta.json").read_text()) if (src / "meta.json").exists() else {}
     res = {"confirmed": {}, "checks": {}}
     res["confirmed"]["demo_without_change"] = demo(out / "demo.py")[0]
-    a = sh(f"git -C /repo apply {out / 'patch.diff'}")
+    a = sh(f"git -C {REPO} apply {out / 'patch.diff'}")
     if a.returncode != 0:
         print("patch does not apply:", a.stderr)
         return 2
@@ -77,7 +77,7 @@ def main():
                                   "detail": detail, "wall_s": round(time.time() - t0, 1)}
             print(pid, p.returncode, (viol[0] if viol else lines[-1] if lines else p.stdout[-200:])[:160], "|", detail[:120])
     finally:
-        sh("git -C /repo checkout -- .")
+        sh(f"git -C {REPO} checkout -- .")
         sh(f"cd {VERIF} && PYTHONPATH={VERIF} /venv/bin/python -m harness.regen")
     res["confirmed"]["suite_without_change"] = suite()
     meta["results"] = res
